@@ -83,6 +83,18 @@ func main() {
 			c.Origin = "replay"
 			cases = append(cases, c)
 		}
+	} else if o.Search != "" {
+		// failing-input search: variants of the cases on which model and implementation disagreed
+		// (fresh cases when there are none); the oracle only, no Coq cases
+		seeds := gqlgen.ReadSeeds(o.Search)
+		for i := 0; i < o.N; i++ {
+			cr := r.Fork()
+			if len(seeds) == 0 {
+				cases = append(cases, genCase(cr))
+			} else {
+				cases = append(cases, gqlgen.Variant(cr, seeds[cr.Intn(len(seeds))], gqlgen.QOpts{PDir: 5, Depth: 3, AllowDup: true}, 0, false))
+			}
+		}
 	} else {
 		for _, f := range vh.CorpusFiles(o.Corpus) {
 			c := &gqlgen.Case{}
@@ -101,6 +113,9 @@ func main() {
 	var terms []string
 	start := 0
 	flush := func(end int) {
+		if o.Search != "" {
+			terms = nil
+		}
 		if len(terms) == 0 {
 			return
 		}
